@@ -27,6 +27,8 @@ SelCase(t, f, r) == [kind |-> "sel", rows |-> t, f |-> f, ref |-> r,
    sel |-> [nm \in Names |-> Sel(t, LAMBDA row : PredOf(nm, f, r, row))],
    range |-> [nm \in RNames |-> [hi \in DOMAIN Refs |-> Sel(t, LAMBDA row : RangePred(nm, f, r, Refs[hi], row))]],
    isin |-> Sel(t, LAMBDA row : InPred(f, {r, 1}, row)),
+   \* search(pattern) over the WHOLE row: a row is selected iff some cell (rendered as text) matches
+   anycell |-> Sel(t, LAMBDA row : \E j \in 1..Len(row) : row[j] = r),
    rowlen |-> [n \in 0..3 |-> Sel(t, LAMBDA row : Len(row) = n)]]
 SliceCase(n) == [kind |-> "slice", n |-> n,
    slices |-> SetToSeq({[start |-> a, stop |-> b, step |-> s, out |-> ISlice(n, a, b, s)] : a \in 0..3, b \in {-1, 0, 1, 2, 4, 6}, s \in 1..3}),
